@@ -70,6 +70,13 @@ func NewAuthorizer(cfg Config) *Authorizer {
 		if name == "" {
 			continue
 		}
+		if existing, ok := principals[name]; ok {
+			// The same principal listed more than once: merge the rule sets
+			// instead of letting the last entry silently drop earlier rules
+			// (in particular earlier deny rules).
+			p.Allow = append(append([]Rule(nil), existing.Allow...), p.Allow...)
+			p.Deny = append(append([]Rule(nil), existing.Deny...), p.Deny...)
+		}
 		principals[name] = p
 	}
 	return &Authorizer{
